@@ -79,7 +79,7 @@ def object_events(entry, enc, tid0, rng, quick, run):
         except Exception as e:
             run.violate(dname, "decoder_construction_raised", dict(entry.config(), decoder=dname), {"object": entry.name, "error": repr(e)[:200]})
             continue
-        budget = (400 if dname in slow else 3000) if quick else (4000 if dname in slow else 40000)
+        budget = (400 if dname in slow else 3000) if quick else (1200 if dname in slow else 8000)
         if entry.component in ("ReedSolomonCodeEncoder",) or dname == "ReedMullerDecoder":
             budget = min(budget, 200)           # components with a listed finding: enough cases to re-confirm it
         pats = patterns(n, t, 400 if not quick else 60, rng)
@@ -180,7 +180,9 @@ def run(run):
     run.log("catalogue: %d objects" % len(cat))
     events, owners = c01.collect(run, cat, rng, quick, object_events)
     run.log("%d events recorded" % len(events))
-    mism = tv.validate(run, "Trace_BlockCode", events, name="TV C02", timeout=3000, count_trace=False, heap="16g")
+    mism = tv.validate_sharded(run, "Trace_BlockCode", events, (lambda e: e["ev"] == "Construct"), name="TV C02", max_events=30000, jobs=8,
+                                cost=(lambda e: 8 if e["ev"] == "DecodeML" else 1))
+    run.traces -= 1        # traces are counted per constructed object below
     run.traces += sum(1 for e in events if e["ev"] == "Construct")
     seen = set()
     for m in mism:
